@@ -1022,6 +1022,16 @@ def specs(draw, gate: Gate | None = None, max_schemas: int = 5, max_ops: int = 4
                 continue  # C04-F01: multi-content operations drop query parameters
             o.setdefault("parameters", []).append({"$ref": "#/components/parameters/StateFilter"})
     separate_param_enum_collisions(all_ops, (spec.get("components") or {}).get("parameters") or {}, g)
+    opid_classes = [_cls(o.get("operationId") or f"{m_}_{p_}") for p_, m_, o in all_ops]
+    if len(distinct_paths) >= 2 and len(set(opid_classes)) == len(opid_classes) and g.flag(draw, "shared_component_response", 1, 4):
+        # one ERROR response declared once under components.responses (inline object body) and referenced with the same status code
+        # from operations under several paths
+        code = draw(st.sampled_from(["404", "409", "422"]))
+        spec.setdefault("components", {})["responses"] = {"Problem": {"description": "A problem.", "content": {"application/json": {"schema": {
+            "type": "object", "properties": {"title": {"type": "string"}, "status": {"type": "integer"}}}}}}}
+        for _p, _m, o in all_ops:
+            if any(str(c).startswith("2") for c in o.get("responses", {})):  # never the primary response of an operation without 2xx
+                o["responses"][code] = {"$ref": "#/components/responses/Problem"}
     if g.flag(draw, "servers", 1, 4):
         spec["servers"] = [{"url": "https://api.example.com/v1"}]
     return spec
